@@ -89,11 +89,15 @@ def _helper_body(draw, params, earlier, want):
         opts += [s0, f"{s0}.Select(lambda {s0}: {s0} + 1)", f"[{s0} * 2 for {s0} in {s0}]", f"{s0}.Select(lambda x: x * 2)"]
         if ns:
             n0 = ns[0]
-            opts += [f"{s0}.Select(lambda x: x + {n0})", f"{s0}.Select(lambda j: j + {n0})", f"[x + {n0} for x in {s0}]", f"[{n0} * 2 for {n0} in {s0}]",
+            opts += [f"[q * {n0} for q in range(1, 4)]", f"[{n0} + x for x in range(3)]", f"[j for j in range(4) if j > {n0} - 5]",
+                     f"{s0}.Select(lambda x: x + {n0})", f"{s0}.Select(lambda j: j + {n0})", f"[x + {n0} for x in {s0}]", f"[{n0} * 2 for {n0} in {s0}]",
                      f"{s0}.Where(lambda x: x > {n0})", f"[j for j in {s0} if j > {n0}]", f"{s0}.Select(lambda {n0}: {n0} + 1)"]
     if es:
         e0 = es[0]
         opts += [f"{e0}.xs", f"{e0}.xs.Select(lambda {e0}: {e0} + 1)", f"{e0}.xs.Select(lambda x: x + {e0}.n)"]
+    if ns and not ss:
+        n0 = ns[0]
+        opts += [f"[q * {n0} for q in range(1, 4)]", f"[{n0} + x for x in range(3)]", f"[j * {n0} for j in range(1, 3)]", f"[a + {n0} for a in range(2)]" if n0 != "a" else f"[b + {n0} for b in range(2)]"]
     if not opts:
         return None
     return draw(st.sampled_from(opts))
@@ -200,7 +204,7 @@ def check(case) -> Result:
                 log.append(("exc", type(e).__name__ + ": " + str(e)))
             return EventDataset.Select(self, f)
 
-    mod = srcgen.load(text, {"len": len})
+    mod = srcgen.load(text, {"len": len, "range": range})
     try:
         try:
             s = mod.build(RecDS())
@@ -219,7 +223,7 @@ def check(case) -> Result:
         except Exception as e:
             return r.fail(f"emitted lambda is malformed: {type(e).__name__}: {e}\n{text}")
         left = free & hnames
-        stray = free - hnames - set(pyeval.PRELUDE)
+        stray = free - hnames - set(pyeval.PRELUDE) - {"range"}
         called = {n.func.id for n in ast.walk(ast.parse(case["body"], mode="eval")) if isinstance(n, ast.Call) and isinstance(n.func, ast.Name)} & hnames
         inlined = called - left
         if inlined:
@@ -235,6 +239,7 @@ def check(case) -> Result:
         if stray:
             return r.fail(f"unbound name(s) {sorted(stray)} in the emitted lambda `{ast.unparse(lam)}`\n{text}")
         env = {n: getattr(mod, n) for n in left}
+        env["range"] = lambda *a: pyeval.Seq(range(*a))
         try:
             got = pyeval.materialise(pyeval.evaluate(lam, env)(_Elem()))
         except Exception as e:
